@@ -492,6 +492,33 @@ def r06_5(prog, tab):
     return r
 
 
+def r06_6(prog, tab):
+    """A type whose encoder for one canonical syntax rewrites the value into its canonical form (the time types: GMT,
+    `Z`, no trailing zeros) does so for every canonical syntax.  Per op table: if some encoder slot holds a function that
+    calls a time normaliser, every non-NULL encoder slot (DER, OER, UPER, XER) must hold such a function; a slot filled
+    with the generic OCTET STRING encoder writes the stored text verbatim, so `+0100` and `Z` forms of one instant
+    differ."""
+    r = Rule("R06.6", "op tables whose type normalises in one encoder normalise in every canonical encoder slot", floor=2)
+    norm = set(tab["time_normalisers"])
+    normalising = {f.name for f in prog.funcs.values() if any(e.get("callee") in norm for b, i, e in f.calls())}
+    for tname, slots in sorted(prog.op_tables.items()):
+        encs = {s_: slots.get(s_) for s_ in ("der_encoder", "oer_encoder", "uper_encoder", "xer_encoder")}
+        names = {s_: (v[3:] if isinstance(v, str) and v.startswith("fn:") else None) for s_, v in encs.items()}
+        if not any(n in normalising for n in names.values() if n):
+            continue
+        for s_, n in sorted(names.items()):
+            if not n:
+                continue
+            key = "%s.%s" % (tname, s_)
+            if n in normalising:
+                r.add("skeletons/%s.c" % tname[len("asn_OP_"):], tname, key, "pass", "%s normalises" % n, None)
+            else:
+                r.add("skeletons/%s.c" % tname[len("asn_OP_"):], tname, key, "violation", "%s is filled with %s, which writes the stored representation verbatim, while %s of the same "
+                      "type normalise(s): two representations of one instant encode differently in this syntax" % (
+                          s_, n, ", ".join(sorted(x for x in names.values() if x in normalising))), None)
+    return r
+
+
 def _reaches(f, cb, b):
     return b.id in f.reachable_from([cb.id])
 
@@ -499,7 +526,7 @@ def _reaches(f, cb, b):
 def run(ctx):
     prog = ctx.prog("S")
     tab = load_tables("c06")
-    return [r06_1(prog, tab), r06_1b(prog, tab), r06_1c(prog, tab), r06_2(prog, tab), r06_3(prog, tab), r06_4(prog, tab), r06_4b(prog, tab), r06_5(prog, tab)]
+    return [r06_1(prog, tab), r06_1b(prog, tab), r06_1c(prog, tab), r06_2(prog, tab), r06_3(prog, tab), r06_4(prog, tab), r06_4b(prog, tab), r06_5(prog, tab), r06_6(prog, tab)]
 
 
 def thorough(ctx):
